@@ -161,14 +161,14 @@ Print Assumptions ClockIndep_clocks_nonvacuous.
 
 (* SYN + "GET / HTTP/1.0\n\n" acknowledging the SYN cookie, answered under the two clocks: same
    table, same SYN-ACK, same events; the two 401 frames differ, have one length, agree outside
-   the TCP checksum (offset 50 / 70) and the 29 bytes of the Date value (offset 107 / 127), carry
+   the TCP checksum (offset 50 / 70) and the 29 bytes of the Date value (right after the template prefix), carry
    the respective Date values there, and are equal once masked *)
 Theorem ClockIndep_example_http_tcp4 :
-  x_check true 80 x_get 50 107 29 (clk_date x_clk1) (clk_date x_clk2) = true.
+  x_check true 80 x_get 50 (54 + length (e_http_pre the_env)) 29 (clk_date x_clk1) (clk_date x_clk2) = true.
 Proof. exact ex_http_tcp4. Qed.
 Print Assumptions ClockIndep_example_http_tcp4.
 Theorem ClockIndep_example_http_tcp6 :
-  x_check false 80 x_get 70 127 29 (clk_date x_clk1) (clk_date x_clk2) = true.
+  x_check false 80 x_get 70 (74 + length (e_http_pre the_env)) 29 (clk_date x_clk1) (clk_date x_clk2) = true.
 Proof. exact ex_http_tcp6. Qed.
 Print Assumptions ClockIndep_example_http_tcp6.
 
